@@ -92,7 +92,7 @@ def check_sampler(res, c):
         s2.read()       # the loaded instrument has been saved once already when the edits arrive
         res.count("resave_cases_saved_before_editing")
     applied = c06.mutate_live(s2, _random.Random(c.seed * 104729 + c.index), 14, prefer=("/effect/", "/samples/", "_envelope"),
-                              first_classes=("sampler-envelope-rebound", "sampler-sample-shared", "sampler-slot-emptied", "sampler-map-update") if c.index % 2 else ("sampler-envelope-rebound", "sampler-map"))
+                              first_classes=("sampler-envelope-rebound", "sampler-sample-shared", "sampler-slot-emptied", "sampler-map-update") if c.index % 2 else ("sampler-map-tail-unmapped", "sampler-envelope-rebound", "sampler-map"))
     if applied:
         res.count("resave_after_edit")
         S_new = build.norm(snapshot.snap_synth(s2), "before")
